@@ -1,13 +1,81 @@
-(** C19 — the mempool yields each pending transaction exactly once, in nonce order per sender, with
-    priority dominance; CountTx = number of pending.  Only statements closed by [exact]. *)
+(** C19 — the application mempool yields every pending transaction exactly once (never a removed one),
+    each sender's transactions in strictly increasing sequence order, a higher-priority sender's
+    available transaction first, and CountTx equals the number of pending transactions — for all
+    histories of Insert / Remove / Select.  Only statements closed by [exact]; proofs are in
+    Mempool/PriorityNonceProofs.v.
+
+    [run ops = fold_left step ops init] is the model state after the history (Select re-weights ties,
+    so it is a state-changing step); [select st] is the sequence a Select(..).Next() walk yields in [st];
+    [pending ops] is computed from the history alone.  Premises: [unique_sender_nonce] (the property's
+    own premise) and [priorities_above_min] (priority > math.MinInt64; at MinInt64 the real iterator
+    dereferences a nil node, which the model reproduces as [select_panics]). *)
 From Coq Require Import List ZArith String Permutation Sorted.
 From Paloma Require Import Mempool.PriorityNonce Mempool.PriorityNonceProofs.
 From Paloma Require Gen.C19.
 Import ListNotations.
 Open Scope Z_scope.
 
+(** every pending transaction exactly once, never a removed one; the walk does not panic *)
+Theorem select_is_permutation_of_pending : forall ops,
+  unique_sender_nonce ops -> priorities_above_min ops ->
+  select_panics (run ops) = false /\ Permutation (select (run ops)) (pending ops).
+Proof. exact select_is_permutation_proof. Qed.
+Print Assumptions select_is_permutation_of_pending.
+
+(** each sender's transactions in strictly increasing sequence-number order *)
+Theorem select_nonce_order : forall ops s,
+  unique_sender_nonce ops ->
+  StronglySorted Z.lt (map tx_nonce (filter (from s) (select (run ops)))).
+Proof. exact select_nonce_order_proof. Qed.
+Print Assumptions select_nonce_order.
+
+(** when [t] is yielded, no other sender's next available transaction has a higher priority *)
+Theorem select_priority_dominates : forall ops,
+  unique_sender_nonce ops -> priorities_above_min ops ->
+  forall out1 t out2, select (run ops) = out1 ++ t :: out2 ->
+  forall s' y, s' <> tx_sender t -> next_available s' out1 (pending ops) y -> tx_prio y <= tx_prio t.
+Proof. exact select_priority_dominates_proof. Qed.
+Print Assumptions select_priority_dominates.
+
+(** CountTx() = number of pending transactions *)
+Theorem count_eq_pending : forall ops,
+  unique_sender_nonce ops -> count (run ops) = Z.of_nat (List.length (pending ops)).
+Proof. exact count_eq_pending_proof. Qed.
+Print Assumptions count_eq_pending.
+
+(** single-message consensus, scheduler, evm (bridge-chain) and valset transactions rank in that
+    order, above every other transaction whose CheckTx priority is below MaxInt64 - 3; stated over
+    the table translated from NewDefaultTxPriority *)
+Theorem priority_classes :
+  map fst Gen.C19.priority_table =
+    ["/palomachain.paloma.consensus."; "/palomachain.paloma.scheduler."; "/palomachain.paloma.evm."; "/palomachain.paloma.valset."]%string /\
+  forall us1 a1 us2 a2 i, tx_class us1 = Some i ->
+    match tx_class us2 with
+    | Some j => ((i < j)%nat -> tx_priority us2 a2 < tx_priority us1 a1) /\ (i = j -> tx_priority us2 a2 = tx_priority us1 a1)
+    | None => a2 < Gen.C19.max_int64 - 3 -> tx_priority us2 a2 < tx_priority us1 a1
+    end.
+Proof. exact priority_classes_proof. Qed.
+Print Assumptions priority_classes.
+
+(** the comparator shapes the model mirrors are what the source says now *)
 Theorem index_order_as_modelled :
   Gen.C19.index_wrapper = "skiplist.LessThanFunc"%string /\
   Gen.C19.index_order = ["priority"; "weight"; "sender"; "nonce"]%string.
 Proof. exact gen_index_order. Qed.
 Print Assumptions index_order_as_modelled.
+
+Theorem source_shapes_as_modelled :
+  Gen.C19.sender_index_cmp = "skiplist.LessThanFunc: skiplist.Uint64.Compare(b.(txMeta[C]).nonce, a.(txMeta[C]).nonce)"%string /\
+  Gen.C19.insert_writes = ["key = txMeta[C]{nonce: nonce, priority: priority, sender: sender}";
+                           "mp.scores[sk] = txMeta[C]{priority: priority}"]%string /\
+  Gen.C19.next_conds = ["i.priorityNode == nil"; "!ok"; "cursor == nil";
+     "i.mempool.cfg.TxPriority.Compare(key.priority, i.nextPriority) < 0";
+     "i.mempool.cfg.TxPriority.Compare(key.priority, i.nextPriority) == 0";
+     "i.mempool.cfg.TxPriority.Compare(weight, i.priorityNode.Next().Key().(txMeta[C]).weight) < 0"]%string /\
+  Gen.C19.iterate_conds = ["i.priorityNode == nil"; "i.priorityNode == nil"; "nextPriorityNode != nil"]%string /\
+  Gen.C19.reorder_conds = ["for node != nil"; "mp.priorityCounts[key.priority] > 1"]%string /\
+  Gen.C19.sender_weight_conds = ["senderCursor == nil"; "for senderCursor != nil"; "txPriority.Compare(p, weight) != 0"]%string /\
+  Gen.C19.count_tx_body = "return mp.priorityIndex.Len()"%string /\
+  Gen.C19.single_message_len = 1 /\ Gen.C19.min_value = - 2 ^ 63 /\ Gen.C19.max_int64 = 2 ^ 63 - 1.
+Proof. exact gen_source_shapes. Qed.
+Print Assumptions source_shapes_as_modelled.
